@@ -1,5 +1,6 @@
 import ExprModel.Code.Compile
 import ExprModel.VM.Step
+import ExprModel.Gen.Opcodes
 /- driver stages: `compile` (model of compiler.Compile) and `vmrun` (model of (*VM).Run) -/
 namespace ExprModel.Drv
 open ExprModel
@@ -20,7 +21,7 @@ def cfgOfSexp : Sexp → Option CompCfg
       | "int64" => some 0
       | "float64" => some 1
       | _ => none
-    pure { mapEnv := m, cast := c }
+    pure { mapEnv := m, cast := c, jumpGuard := Gen.jumpGuard }
   | _ => none
 
 /-- `(compile (cfg <mapEnv> <cast|_>) <node>)` -/
